@@ -145,13 +145,13 @@ let digest_of (c : n list option) : string =
     Printf.sprintf "%d:%s" len (Digest.to_hex (Digest.bytes b))
 
 (* cr_sim <scheme: inplace|atomic|none> <h> <p> <q> <nfiles> (<path> <bytes>)* <payload>
-          <npre> op* <nbody> op* <npost> op* <nqueries> (<k> <d|i>)*
+          <npre> op* <nbody> op* <npost> op* <nqueries> (<k> <d|i|x n>)*
    observed trace = pre @ body @ post.  Output:
      body_ok=<b> trace_match=<b> | <digest of p for each query> | final <digest of p> <digest of q> *)
 let cmd_cr_sim (t : toks) (buf : Buffer.t) : unit =
   let scheme = next t in
   let h = next_n t in let p = next_n t in let q = next_n t in
-  let fs = next_list t (fun t -> let path = next_n t in let b = next_str t in (path, b)) in
+  let fs = cr_mkfs (next_list t (fun t -> let path = next_n t in let b = next_str t in (path, b))) in
   let payload = next_str t in
   let pre = next_list t read_cr_op in
   let body = next_list t read_cr_op in
@@ -163,14 +163,28 @@ let cmd_cr_sim (t : toks) (buf : Buffer.t) : unit =
     | "atomic" -> b2s (cr_trace_eqb obs (cr_save_trace Cr_Atomic h p q body))
     | _ -> "-" in
   add buf (Printf.sprintf "body_ok=%s trace_match=%s |" (b2s (cr_body_ok h payload body)) tm);
+  (* queries are sorted by k; the state after the first k operations is obtained by stepping the model (cr_step is the
+     body of cr_run's fold); for short traces every answer is also recomputed from scratch with cr_crash_at *)
   let nq = next_int t in
+  let st = ref (cr_init fs) and done_ = ref 0 and rest = ref obs in
+  let short = List.length obs <= 150 in
   for _ = 1 to nq do
-    let k = next_nat t in
-    let m = match next t with "d" -> Cr_Death | "i" -> Cr_Interrupt | s -> failwith ("bad mode " ^ s) in
-    add buf (" " ^ digest_of (cr_crash_at m obs k fs p))
+    let k = next_int t in
+    let m = match next t with "d" -> Cr_Death | "i" -> Cr_Interrupt | "x" -> Cr_Partial (next_nat t)
+                           | s -> failwith ("bad mode " ^ s) in
+    if k < !done_ then failwith "queries not sorted";
+    while !done_ < k do
+      (match !rest with
+       | o :: r -> st := cr_step !st o; rest := r
+       | [] -> ());
+      incr done_
+    done;
+    let c = cr_file (cr_stop m !st) p in
+    if short && c <> cr_crash_at m obs (nat_of_int k) fs p then failwith "stepping disagrees with cr_crash_at";
+    add buf (" " ^ digest_of c)
   done;
   let fin = cr_run (cr_init fs) obs in
-  add buf (" | final " ^ digest_of (cr_get fin.cr_fs p) ^ " " ^ digest_of (cr_get fin.cr_fs q)
+  add buf (" | final " ^ digest_of (cr_file fin.cr_fs p) ^ " " ^ digest_of (cr_file fin.cr_fs q)
            ^ Printf.sprintf " open=%d" (List.length fin.cr_open))
 
 let () =
